@@ -209,7 +209,7 @@ def _helper_call(N, e, macros):
     template: one that is not an emitter of the codec family, which the rules treat as atomic events"""
     if not macros:
         return None
-    while isinstance(e, N.Filter) and e.name in ("trim", "indent", "string", "safe") and e.node is not None:
+    while isinstance(e, N.Filter) and e.name in ("trim", "indent", "string", "safe", "remove_blank_lines") and e.node is not None:
         e = e.node
     if isinstance(e, N.Call) and isinstance(e.node, N.Name) and e.node.name in macros and e.dyn_args is None and e.dyn_kwargs is None:
         name = e.node.name
